@@ -298,6 +298,10 @@ func (in *Instance) build(ctx context.Context, g *Graph) (builder, error) {
 			b.tools(n.Key, tn, name)
 		case "Z":
 			b.pass(n.Key, name)
+		case "K":
+			b.pass(n.Key, name, compose.WithOutputKey("k"))
+		case "J":
+			b.pass(n.Key, name, compose.WithInputKey("k"))
 		case "G":
 			sb, err := in.build(ctx, n.Sub)
 			if err != nil {
